@@ -1,10 +1,10 @@
 SPECIFICATION Spec
 CONSTANTS
- MaxOps = 3
- Universe <- U_q
- HookRules <- H_q
- Alphabet <- A_q
- ProbeLen = 2
+ MaxOps = 5
+ Universe <- U_t
+ HookRules <- H_t
+ Alphabet <- A_t
+ ProbeLen = 3
  CheckNames = TRUE
 CONSTRAINT Depth
 INVARIANT AgreeResolve
